@@ -230,7 +230,11 @@ pub fn generate(opts: &Opts, sink: &mut CaseSink) {
         let blocks: Vec<String> = d0.blocks.iter().map(|b| format!("(Build_block {}%nat {})", b.id, repl_coq(&b.replication))).collect();
         let only_one: std::collections::HashMap<u64, bool> = d0.blocks.iter().map(|b| (b.id, b.only_one)).collect();
         let edges: Vec<String> = d0.edges.iter().map(|(f, t, fr)| format!("(Build_edge {}%nat {}%nat {} {})", f, t, only_one[f], fr)).collect();
-        let term = format!("(Build_case {} [{}] [{}] [{}])", dep, blocks.join("; "), edges.join("; "), dumps.join("; "));
+        // the real intersection of requirements on a table of pairs (a block that inherits two
+        // requirements gets their intersection)
+        let table = [Replication::One, Replication::Host, Replication::Unlimited, Replication::new_limited(1), Replication::new_limited(3), Replication::new_limited(rng.range(1, 9) as u64)];
+        let inter: Vec<String> = table.iter().flat_map(|a| table.iter().map(move |b| (*a, *b))).map(|(a, b)| format!("({}, {}, {})", repl_coq(&a), repl_coq(&b), repl_coq(&a.intersect(b)))).collect();
+        let term = format!("(Build_case {} [{}] [{}] [{}] [{}])", dep, blocks.join("; "), edges.join("; "), dumps.join("; "), inter.join("; "));
         sink.count(&format!("shape_{}", plan.shape));
         sink.count(if local { "local" } else { "remote" });
         sink.count(&format!("hosts_{}", hosts));
